@@ -13,8 +13,10 @@ def hasBit (p b : Nat) : Bool := (p / b) % 2 == 1
 
 /-- reads of `definitions` by identifier: Lookup, LookupBindings, IsMaterialized, definitions[…] -/
 def isDefsAccess (s : Site) : Bool := s.method == 0 || s.method == 3 || s.method == 4 || s.method == 5
-/-- uses of an identifier as a KEY of `aliases`: AliasedLookup, LookupString, aliases[…], Alias(key, _) -/
+/-- uses of an identifier as a KEY of `aliases` (variables, projection aliases): AliasedLookup, LookupString, aliases[…], Alias(key, _) -/
 def isAliasKeyAccess (s : Site) : Bool := s.method == 1 || s.method == 2 || s.method == 6 || s.method == 7
+/-- uses of an identifier as a KEY of `parameterAliases`: ParameterLookup, AliasParameter(key, _), parameterAliases[…] -/
+def isParamKeyAccess (s : Site) : Bool := s.method == 11 || s.method == 12 || s.method == 13
 
 /-- accesses outside the methods of `Scope` itself (inside them the argument is a parameter whose
 provenance is that of the callers, which are listed here) -/
@@ -32,7 +34,18 @@ theorem user_ids_only_via_aliased_lookup :
 /-- **alias_after_fresh_define**: every `Alias(key, binding)` call has a user-derived key and a binding that
 was produced by `DefineNew`/`Define` in the same function — the premise of `alias_values_injective`. -/
 theorem alias_after_fresh_define :
-    ((external.filter (fun s => s.method == 7)).all (fun s => s.fresh && s.prov == 1)) = true := by decide
+    ((external.filter (fun s => s.method == 7 || s.method == 12)).all (fun s => s.fresh && s.prov == 1)) = true := by decide
+
+/-- **parameter_path_separate**: the live code keeps the two namespaces apart. Inside the translator's
+`case *cypher.Parameter:` the scope is consulted ONLY through `ParameterLookup` / `AliasParameter` (user-derived key),
+those two are used nowhere else, and no access to the variable table (`AliasedLookup`, `LookupString`, `Alias`)
+happens for a parameter. This is what makes `K = USym` (namespace-tagged keys) the right instance of the model;
+on the tree before the fix of F10 it fails (the parameter case used `AliasedLookup` / `Alias`). -/
+theorem parameter_path_separate :
+    (external.filter (fun s => s.method == 11 || s.method == 12)).all (fun s => s.inParamCase && s.prov == 1) = true
+    ∧ (external.filter (fun s => s.method == 1 || s.method == 2 || s.method == 7)).all (fun s => !s.inParamCase) = true
+    ∧ external.any (fun s => s.method == 11) = true ∧ external.any (fun s => s.method == 12) = true
+    ∧ (external.filter (fun s => s.method == 13 || s.method == 6)).length = 0 := by decide
 
 /-- `Define` with a caller-chosen identifier happens only with translator constants -/
 theorem define_only_constants :
